@@ -17,10 +17,16 @@ case input = [naddr, labels, progs, actions, mode]
            | [2] return | [3] raise | [4] end with asyncio.CancelledError ; when exhausted: yield without timeout
   actions  the driver's script: [0,a,d] datagram d arrives from a | [1,a] release a's gate | [2] one loop iteration
            | [3] run until nothing is ready | [4,dt] let dt ticks of virtual time pass (timers fire), then as [3]
-  mode     [yieldcond]: 1 = the backend's condition variable yields to the loop once when it is acquired from
-           push_datagram (models backends whose lock acquisition is a checkpoint, e.g. trio)
+           | [5] (reallistener) await serve() now
+  mode     [yieldcond, reallistener]: yieldcond 1 = the backend's condition variable yields to the loop once when it is
+           acquired from push_datagram (models backends whose lock acquisition is a checkpoint, e.g. trio);
+           reallistener 1 = the listener is the REAL asyncio DatagramListenerProtocol + DatagramListenerSocketAdapter on a
+           bound UDP socket (datagrams injected with protocol.datagram_received(), what the asyncio transport calls) and
+           action [5] = "serve() is awaited now": datagrams arriving before it go through the pre-serve backlog
 The model gets (naddr, labels) and must accept every label and produce the same observables:
-  output = [obs, summary]    obs: [0,a,d] handler task for (a,d) took its first step | [1,a] a new generator for a
+  output = [obs, summary, stuck]    stuck = [] (the real server is idle at the end of the script; the model lists the
+           scheduler steps still enabled in its final state: a queued datagram whose coroutine waits, a pending task ...)
+           obs: [0,a,d] handler task for (a,d) took its first step | [1,a] a new generator for a
            started | [2,a,d] a's generator received request d | [3,a] a's generator received TimeoutError | [9] the
            server crashed ;  summary: per address [generators created, generator active now, requests received]
 """
@@ -49,6 +55,7 @@ ANCHORS = [
     ("src/easynetwork/lowlevel/api_async/backend/_asyncio/datagram/listener.py", "_DatagramListenerServeContext.handle"),
     ("src/easynetwork/lowlevel/api_async/backend/_asyncio/datagram/listener.py", "DatagramListenerProtocol.datagram_received"),
     ("src/easynetwork/lowlevel/api_async/backend/_asyncio/datagram/listener.py", "DatagramListenerProtocol.serve"),
+    ("src/easynetwork/lowlevel/api_async/backend/_asyncio/datagram/listener.py", "DatagramListenerSocketAdapter.serve"),
     ("src/easynetwork/servers/misc.py", "build_lowlevel_datagram_server_handler"),
     ("src/easynetwork/servers/async_udp.py", "_ClientContext.__aexit__"),
     ("src/easynetwork/servers/async_udp.py", "AsyncUDPNetworkServer.__lowlevel_serve"),
@@ -80,6 +87,7 @@ class _Run:
         self.progs = [list(p) for p in progs] + [[] for _ in range(naddr - len(progs))]
         self.actions = actions
         self.yieldcond = bool(mode and mode[0])
+        self.real_listener = bool(mode and len(mode) > 1 and mode[1])
         self.log = []            # events, see _convert
         self.gates = {}
         self.stopping = False
@@ -228,7 +236,23 @@ class _Run:
                 # what DatagramListenerProtocol.datagram_received does: one task per datagram, in arrival order
                 self.task_group.start_soon(self.handler, data, _addr(a))
 
-        listener = MemListener()
+        real_proto = None
+        if self.real_listener:
+            # the REAL asyncio listener: DatagramListenerProtocol + DatagramListenerSocketAdapter on a bound UDP socket;
+            # datagrams are injected with protocol.datagram_received() = what the asyncio transport calls
+            from easynetwork.lowlevel.api_async.backend._asyncio.datagram.listener import (
+                DatagramListenerProtocol, DatagramListenerSocketAdapter)
+            sock = socket.socket(socket.AF_INET, socket.SOCK_DGRAM)
+            sock.bind(("127.0.0.1", 0))
+            sock.setblocking(False)
+            real_tr, real_proto = await loop.create_datagram_endpoint(lambda: DatagramListenerProtocol(loop=loop), sock=sock)
+            listener = DatagramListenerSocketAdapter(backend, real_tr, real_proto)
+
+            def inject(data, a):
+                real_proto.datagram_received(data, _addr(a))
+        else:
+            listener = MemListener()
+            inject = listener.inject
 
         class TGWrap(TaskGroup):
             """delegates to the real task group; records the first step of every task it starts"""
@@ -254,7 +278,7 @@ class _Run:
                 return await self.inner.start(coro_func, *args, name=name)
 
             async def _first_step(self, coro_func, args):
-                if coro_func is listener.handler:
+                if args and isinstance(args[0], (bytes, bytearray, memoryview)):
                     a = args[1][1] - 1000
                     run.cur_handler_addr = a
                     run.push_may_yield = run.yieldcond
@@ -284,7 +308,10 @@ class _Run:
             async with real_backend.create_task_group() as tg:
                 await server.serve(cb, TGWrap(tg))
 
-        srv = asyncio.ensure_future(serve_all())
+        srv = None
+        deferred_start = self.real_listener and any(act[0] == 5 for act in self.actions)
+        if not deferred_start:
+            srv = asyncio.ensure_future(serve_all())
 
         async def quiesce():
             for _ in range(10000):
@@ -296,12 +323,15 @@ class _Run:
         await quiesce()
         crashed = False
         for act in self.actions:
-            if srv.done():
+            if srv is not None and srv.done():
                 break
             k = act[0]
             if k == 0:
                 self.log.append(("arrive", act[1], bytes(act[2])))
-                listener.inject(bytes(act[2]), act[1])
+                inject(bytes(act[2]), act[1])
+            elif k == 5:
+                if srv is None:
+                    srv = asyncio.ensure_future(serve_all())
             elif k == 1:
                 fut = self.gates.get(act[1])
                 if fut is not None and not fut.done():
@@ -313,6 +343,8 @@ class _Run:
             elif k == 4:
                 await asyncio.sleep(act[1] * TICK)
                 await quiesce()
+        if srv is None:
+            srv = asyncio.ensure_future(serve_all())
         if not srv.done():
             await quiesce()
         if self.final_hook is not None:
@@ -326,6 +358,9 @@ class _Run:
         srv.cancel()
         with contextlib.suppress(BaseException):
             await srv
+        if self.real_listener:
+            with contextlib.suppress(BaseException):
+                await listener.aclose()
         return crashed
 
     final_hook = None
@@ -423,8 +458,9 @@ def run_impl(inp):
     labels2, obs, summary, _ = convert(naddr, log)
     from common import sx
     if sx.norm(labels2) != sx.norm(labels):
-        return [[[7, 7]], []]       # the recorded run is not reproducible
-    return [obs, summary]
+        return [[[7, 7]], [], []]       # the recorded run is not reproducible
+    # third component: internal steps still enabled -- none, the real server is idle when the script has been executed
+    return [obs, summary, []]
 
 
 # ------------------------------------------------------------------------------------------------ case generation
@@ -435,7 +471,10 @@ RULE = ("a case is a driver script for the real server (datagram arrivals from 1
         "{arrive, release, idle, advance} x every program up to length 2 (thorough: also length 4 x programs up to 3) for one address (also with the "
         "yielding condition variable), every action sequence up to length 4 (5) over {arrive from 0, arrive from 1, "
         "release 0, idle} x small programs for two addresses; random: 1-3 "
-        "addresses, up to 6 datagrams, programs up to 6 choices, with and without a yielding condition variable. "
+        "addresses, up to 6 datagrams, programs up to 6 choices, with and without a yielding condition variable, over the "
+        "in-memory listener or the REAL asyncio DatagramListenerProtocol; real listener with a pre-serve backlog of "
+        "0/1/2/31..34/40/64/65 datagrams followed by every sequence of up to 3 {loop iteration, late arrival} steps. The "
+        "model must also have no scheduler step left enabled when the real server is idle at the end of the script. "
         "Cases whose label sequence was already produced are skipped. Non-trivial = a datagram arrived while its "
         "address had a live generator, a suspended handler or a pending task, or a restart/timeout/discard happened.")
 TRUSTED = ["model of AsyncDatagramServer.serve/_ClientData hand-written in coq/Conc/DgramServer.v, validated by trace replay",
@@ -553,10 +592,35 @@ def _exhaustive2(maxact, mode, seen):
                         yield c
 
 
+def _backlog_cases(seen, thorough):
+    """real asyncio listener: B datagrams received before serve() is awaited (pre-serve backlog), then every sequence
+    of up to 3 {one loop iteration, late arrival} steps right after serve() starts; the model is plain FIFO"""
+    sizes = (0, 1, 2, 31, 32, 33, 34, 40, 64, 65) + ((63, 96, 97, 130) if thorough else ())
+    for naddr in (1, 2):
+        for b in sizes:
+            for n in range(0, 4):
+                for seq in itertools.product("TA", repeat=n):
+                    actions, k = [], 0
+                    for _ in range(b):
+                        actions.append([0, k % naddr, b"D%d" % k])
+                        k += 1
+                    actions.append([5])
+                    for x in seq:
+                        if x == "T":
+                            actions.append([2])
+                        else:
+                            actions.append([0, k % naddr, b"L%d" % k])
+                            k += 1
+                    actions.append([3])
+                    c = _case(naddr, [[] for _ in range(naddr)], actions, [0, 1], seen, ["real-listener", f"backlog{b}"])
+                    if c:
+                        yield c
+
+
 def _random_case(rng, seen, thorough):
     naddr = rng.choice([1, 2, 2, 3, 3])
     ndg = rng.randint(1, 6)
-    mode = [rng.choice([0, 0, 1])]
+    mode = [rng.choice([0, 0, 1]), rng.choice([0, 0, 1])]
     progs = []
     for _ in range(naddr):
         n = rng.randint(0, 6 if not thorough else 9)
@@ -577,7 +641,10 @@ def _random_case(rng, seen, thorough):
             actions.append([4, rng.choice([1, 2, 3, 5, 8])])
     for _ in range(rng.randint(0, 4)):
         actions.append(rng.choice([[1, rng.randrange(naddr)], [3], [2], [4, rng.choice([1, 3, 6])]]))
-    return _case(naddr, progs, actions, mode, seen, ["random", "yieldcond" if mode[0] else "plaincond"])
+    if mode[1] and rng.random() < 0.5:
+        actions.insert(rng.randrange(len(actions) + 1), [5])
+    return _case(naddr, progs, actions, mode, seen, ["random", "yieldcond" if mode[0] else "plaincond"] +
+                 (["real-listener"] if mode[1] else []))
 
 
 def cases(tier, rng, escalate):
@@ -590,6 +657,7 @@ def cases(tier, rng, escalate):
     yield from _exhaustive2(5 if thorough else 4, [0], seen)
     if thorough:
         yield from _exhaustive2(4, [1], seen)
+    yield from _backlog_cases(seen, thorough)
     n = 12000 if thorough else 2500
     for _ in range(n):
         c = _random_case(rng, seen, thorough)
@@ -684,7 +752,7 @@ def shrink(inp):
             del p2[a][i]
             yield make_input(naddr, p2, actions, mode)
     if mode and mode[0]:
-        yield make_input(naddr, progs, actions, [0])
+        yield make_input(naddr, progs, actions, [0] + list(mode[1:]))
 
 
 def extra(ctx):
